@@ -16,6 +16,7 @@
   Token.__eq__ = equality of the signed plaintext) is the list of its keys in insertion order.
 -/
 import Ipv8.Base.Proto
+import Ipv8.C16.GenConst
 
 namespace Ipv8.C16
 open Ipv8
@@ -198,6 +199,10 @@ def walk (C : Crypto) (g : Bytes) (els : List Token) : Nat → Token → Option 
       | none => none
       | some p => (walk C g els n p).map (cur :: ·)
 
+/-- a fresh tree's waiting-area bound and the default `maxdepth`, as the source has them today -/
+def defaultCap : Nat := Gen.unchainedMaxSize
+def defaultMaxDepth : Int := Gen.maxDepthDefault
+
 /-- verify(token, maxdepth).  maxdepth ≤ 0 (including the documented -1) never returns True: the loop either does
     not run or, for -1, can only end with `steps < -1`. -/
 def verify (C : Crypto) (g : Bytes) (tr : Tree) (t : Token) (maxdepth : Int) : Bool :=
@@ -223,13 +228,16 @@ def upToLoop (C : Crypto) (els : List Token) : Nat → Bytes → Bytes
 def serializeUpTo (C : Crypto) (tr : Tree) (t : Token) : Bytes :=
   t.signed ++ upToLoop C tr.els tr.els.length t.prev
 
-/-- Token.unserialize at every multiple of the chunk size; `false` = the last chunk is short (struct.error) -/
+/-- Token.unserialize at every multiple of the chunk size; `false` = the last chunk is short (struct.error).
+    Field widths and the chunk size come from the GENERATED constants (struct format of Token.unserialize,
+    `chunk_size` of unserialize_public). -/
 def parseChunks (sigLen : Nat) (s : Bytes) : List Token × Bool :=
   if s.isEmpty then ([], true)
-  else if s.length < 64 + sigLen then ([], false)
+  else if s.length < Gen.prevLen + Gen.chashLen + sigLen then ([], false)
   else
-    let r := parseChunks sigLen (s.drop (64 + sigLen))
-    (Token.ofHash (s.take 32) ((s.drop 32).take 32) ((s.drop 64).take sigLen) :: r.1, r.2)
+    let r := parseChunks sigLen (s.drop (Gen.chunkBase + sigLen + (1 - (Gen.chunkBase + sigLen))))
+    (Token.ofHash (s.take Gen.prevLen) ((s.drop Gen.prevLen).take Gen.chashLen)
+      ((s.drop (Gen.prevLen + Gen.chashLen)).take sigLen) :: r.1, r.2)
 termination_by s.length
 decreasing_by
   simp only [List.length_drop]
